@@ -59,6 +59,9 @@ def mps_sum(ctx, idx, rng):
     d = int(rng.choice([1, 2, 3]))
     layout = str(rng.choice(['zero', 'unsorted', 'sorted', 'pairs', 'huge']))
     qd, a, b, lab = _pair_mps(rng, L, d, layout)
+    if idx % 6 == 4 and L >= 1:
+        b, _ = gen.partially_shared_mps(rng, a)       # the second summand SHARES most site-tensor arrays by reference with the first
+        lab = lab[:1] + ('shares-tensors',) + lab[2:]
     if idx % 6 == 5:
         b = a                      # the SAME object on both sides (psi - psi, psi + psi, add_mps(psi, psi, alpha))
         lab = lab[:1] + ('same-object',) + lab[2:]
